@@ -9,6 +9,7 @@
 #define VF_INPUTS(X) X(int, type, ) X(unsigned char, raw, [TS + 1]) X(unsigned char, rawnull, ) X(unsigned, off, ) X(unsigned char, pre, [N]) \
     X(unsigned char, pp_ok, [VF_NPCALL]) X(unsigned char, pp_len, [VF_NPCALL]) X(unsigned char, pp_adv, [VF_NPCALL]) X(unsigned char, pp_txt, [VF_NPCALL][VF_PLEN])
 #include "vf.h"
+#include "vf_str.h"
 #ifndef VF_LIB
 #define VF_LIB "cJSON.c"
 #endif
